@@ -321,9 +321,8 @@ pub fn c04(a: &Analysis<'_>, out: &mut Vec<Violation>) {
             continue;
         }
         if let ParserItemKind::Feature(fi) = &a.plan.items[*i].kind {
-            for sc in a.st.scenarios.values().filter(|s| s.feature_idx == *fi) {
-                supplied.insert(sc.name.clone());
-            }
+            // (by the feature's own list: a twin of the feature shares its scenarios' names)
+            supplied.extend(a.st.feature_scenarios.get(fi).into_iter().flatten().cloned());
         }
     }
     let started: BTreeSet<String> = a.attempts.iter().filter(|t| t.started.is_some()).map(|t| t.scenario.clone()).collect();
